@@ -25,13 +25,19 @@ SPEC = dict(
           "time on a shared provider), console (single expressions parsed+validated on the shared provider), mixed; "
           "every result (hash of the canonical tree: names, token values, meta — or error kind with line/pos — plus "
           "validation / evaluation value) is computed sequentially first, then by all goroutines concurrently, r rounds each; "
-          "result = number of differing results. Non-trivial = at least 2 goroutines and the directed programs included."),
+          "mode cold: all goroutines evaluate the SAME freshly parsed+validated AST (interpolation-heavy programs, imports) at the "
+          "same moment without warm-up, reference value from a separate parse of the same source; mode ids: the goroutines parse "
+          "with ONE shared provider and the instance ids of all runtime components of all returned trees (reflection) must be "
+          "distinct; result = number of differing results and number of duplicate instance ids. Non-trivial = at least 2 goroutines and the directed programs included."),
     trusted_base=[
         "the access classification is syntactic (go/ast): writes through aliases, through method calls on package-level "
         "values and in dependencies (krotik/common) are not seen by the extractor; the race-detector run of the thorough "
         "tier is the supporting evidence for those",
         "the call graph is name-based and over-approximates; it is sound only if every function reachable through a "
         "function value is mentioned by name in a reachable function or package-level table",
+        "Validate-phase writes to runtime components are allowed on the protocol 'a tree is validated once by the goroutine that "
+        "parsed it before any other goroutine evaluates it' (true of every Validate call site in /repo; a host that validates a "
+        "shared tree concurrently is outside the claim)",
         "hypothesis hC of parse_reentrant (results do not depend on the instance counter) is tied by the stress: the "
         "sequential and the concurrent results are computed at different counter values",
     ],
@@ -48,7 +54,10 @@ META = dict(
                 "parse / runtime-construction path are all atomic or lock-protected updates of cells the result does not depend on, "
                 "every parse result equals the sequential result and no other package-level state changes (parse_reentrant, "
                 "schedule_independent, parse_pure); the unrepaired table rewrite interferes and poisons (witnesses). "
-                "Tie to /repo: the write set is extracted from the source on every run (obligation writesOnParsePath_allowed by decide), "
+                "Instance ids drawn atomically are distinct for all schedules (instance_ids_distinct; counter++ collides: witness). "
+                "Tie to /repo: the package-level write set and the writes to fields of shared objects (runtime provider, AST-attached "
+                "runtime components) are extracted from the source on every run (obligations writesOnParsePath_allowed, "
+                "sharedObjectWrites_allowed by decide, allowed entries justified one by one), "
                 "concurrent parses / evaluations are compared with sequential results."),
     level_note=("Trusted: Lean kernel + propext/Classical.choice/Quot.sound; the syntactic extractor (no alias analysis, name-based call "
                 "graph); sequential consistency. The theorem is about the abstract thread model, not about a Lean port of parser.go; "
